@@ -22,6 +22,8 @@ inductive Op
   | write (i : Nat) (data : Bytes) (t : Int)
   /-- `File.write(data, mode="ab")` -/
   | append (i : Nat) (data : Bytes) (t : Int)
+  /-- `with objs[i].open(mode) as f: f.write(data)` (a read-only stream just reads) -/
+  | openMode (i : Nat) (mode : List Char) (data : Bytes) (t : Int)
   | remove (i : Nat)
   | touch (i : Nat) (t : Int)
   /-- `objs[i].copy_to(objs[j], skip_if_exists=skip)` on two file values -/
@@ -106,6 +108,24 @@ def step (U : List Path) (s : St) : Op → St × Out
       let fs' := s.fs.append p data t
       ({ fs := fs', objs := s.objs.set i (Obj.updateHash U fs' ⟨.file fam p, c⟩) }, .ok)
     | _ => (s, .bad)
+  | .openMode i mode data t =>
+    match s.objs[i]?, parseMode mode with
+    | some ⟨.file fam p, c⟩, some (base, plus) =>
+      -- what the operating system does with the file
+      let r : Except Err FS :=
+        match base, s.fs p with
+        | .r, none => .error .redunNotFound
+        | .r, some n => .ok (if plus then s.fs.set p (some ⟨overwriteAt0 n.bytes data, t⟩) else s.fs)
+        | .w, _ => .ok (s.fs.write p data t)
+        | .a, _ => .ok (s.fs.append p data t)
+        | .x, some _ => .error .redunOS
+        | .x, none => .ok (s.fs.write p data t)
+      match r with
+      | .error e => (s, .err e)
+      | .ok fs' =>
+        -- what redun does on close: the hook exists iff the mode string contains one of w a x +
+        ({ fs := fs', objs := if hookInstalled mode then s.objs.set i (Obj.updateHash U fs' ⟨.file fam p, c⟩) else s.objs }, .ok)
+    | _, _ => (s, .bad)
   | .remove i =>
     match s.objs[i]? with
     | some ⟨.file _ p, _⟩ => ({ s with fs := s.fs.remove p }, .ok)
@@ -157,6 +177,7 @@ def run (U : List Path) (s : St) : List Op → St
 def target : Op → Option Nat
   | .write i _ _ => some i
   | .append i _ _ => some i
+  | .openMode i mode _ _ => if hookInstalled mode then some i else none
   | .copyTo _ j _ _ => some j
   | .stage i _ _ => some i
   | .unstage _ j _ => some j
